@@ -1102,6 +1102,7 @@ func exhaustiveAuth(run *hx.Run) {
 type backend struct {
 	dc       string
 	client   bool // resolve through RPC instead of locally
+	down     bool // the RPCs fail (servers unreachable)
 	tokens   map[string]*structs.ACLToken
 	policies map[string]*structs.ACLPolicy
 	roles    map[string]*structs.ACLRole
@@ -1137,6 +1138,9 @@ func (b *backend) ResolveRoleFromID(id string) (bool, *structs.ACLRole, error) {
 }
 func (b *backend) IsServerManagementToken(string) bool { return false }
 func (b *backend) RPC(_ context.Context, method string, args interface{}, reply interface{}) error {
+	if b.down {
+		return fmt.Errorf("rpc error: servers unreachable")
+	}
 	switch method {
 	case "ACL.TokenRead":
 		req, out := args.(*structs.ACLTokenGetRequest), reply.(*structs.ACLTokenResponse)
@@ -1812,6 +1816,7 @@ func main() {
 	start := time.Now()
 	aliasWitness(run)
 	negativeWitness(run)
+	outageWitness(run)
 	nAuth := run.Scale(1500, 24000)
 	for i := 0; i < nAuth; i++ {
 		authCase(run, run.RNG.Fork(uint64(i)), nil)
@@ -1820,6 +1825,7 @@ func main() {
 	for i := 0; i < nSeq; i++ {
 		runSeq(run, run.RNG.Fork(uint64(1_000_000+i)), "compile")
 		runSeq(run, run.RNG.Fork(uint64(2_000_000+i)), "resolve")
+		runRpcSeq(run, run.RNG.Fork(uint64(3_000_000+i)))
 	}
 	if run.Thorough() {
 		exhaustiveAuth(run)
